@@ -31,6 +31,10 @@ func TestVerifDriver(t *testing.T) {
 	sc.Buffer(make([]byte, 1<<20), 1<<20)
 	for sc.Scan() {
 		line := strings.TrimSpace(sc.Text())
+		if strings.HasPrefix(line, "T ") {
+			fmt.Fprintln(w, verifTypeLine(line[2:]))
+			continue
+		}
 		if !strings.HasPrefix(line, "I ") {
 			fmt.Fprintln(w, "BAD")
 			continue
